@@ -26,6 +26,10 @@ def run(chk, tier):
     # successor and on members being chained in schema order (generated code: E4.cursor)
     import e4
     e4.check(chk, ("cursor",), tier)
+    # what on_data subtracts and what the cursor skips is size_bytes(d) of the data view: prefix + wire length, computed
+    # without narrowing for every length type (data rows)
+    import spec_array
+    spec_array.check_dynamic(chk, lib_for("vdims", "c++17"))
     chk.extra["entry_points_analysed"] = tot[0]
     chk.floor("size_bytes_checked instantiations", tot[0], 20)
     chk.floor("reads examined", tot[1], 300)
